@@ -99,6 +99,19 @@ inline void backend_body(Scenario const& sc)
   }
   // deterministic drain: let the grace period elapse, poll until two consecutive polls change nothing and all is empty
   g_ctl->vclock_ns += static_cast<uint64_t>(w.backend_options.log_timestamp_ordering_grace_period.count()) * 1000ull + 1000000ull;
+  // first quill's own drain (ManualBackendWorker::poll: "polls until all queues are empty"; bounded here by virtual time),
+  // then the harness's: if quill reports "everything empty" and a further poll still delivers something, the library's
+  // drain - the same emptiness check ends Backend::stop()'s - returns with accepted statements pending
+  auto writes = [&w]
+  {
+    size_t k = 0;
+    for (auto const& r : w.recs)
+      if (!r.is_flush && !r.is_destroy) ++k;
+    return k;
+  };
+  w.worker->poll(std::chrono::microseconds{50});
+  bool const quill_says_empty = w.worker->_backend_worker->_check_frontend_queues_and_cached_transit_events_empty();
+  size_t const writes_after_quill_drain = writes();
   int idle = 0, n = 0;
   while (idle < 2 && n < 10000)
   {
@@ -118,6 +131,8 @@ inline void backend_body(Scenario const& sc)
   if (n >= 10000 || !backend_all_empty()) livelock = (sc.c("allow_nonempty_drain", 0) == 0);
   if (livelock) w.vars["livelock"] = 1;
   w.vars["drain_polls"] = n;
+  if (quill_says_empty && writes() != writes_after_quill_drain)
+    w.vars["quill_drain_incomplete"] = static_cast<long>(writes() - writes_after_quill_drain);
 }
 } // namespace opx
 
@@ -371,6 +386,13 @@ inline int run_child(Scenario const& sc, std::vector<int> const& prefix, std::ve
     if (sc.check) sc.check(W, sc);
     if (!W.violation_kind.empty())
       verdict = "violation";
+    else if (W.vars.count("quill_drain_incomplete"))
+    {
+      verdict = "violation";
+      W.violation_kind = "drain-returned-with-pending-statements";
+      W.violation_detail = "ManualBackendWorker::poll() returned and the backend reported every queue and buffer empty, yet " +
+        std::to_string(W.vars["quill_drain_incomplete"]) + " accepted statement(s) were still pending (delivered only by further polls)";
+    }
     else if (W.vars.count("livelock") && sc.c("livelock_ok", 0) == 0)
     {
       verdict = "violation";
